@@ -312,3 +312,162 @@ Fixpoint grm_lookup (rm : list (ty * string)) (t : ty) : option string :=
 Definition grm_put (rm : list (ty * string)) (t : ty) (k : string) : list (ty * string) := (rm ++ [(t, k)])%list.
 (* the model keeps one list for both maps *)
 Definition rm_of (reg : registry) : list (ty * string) := map (fun e => (snd e, fst e)) reg.
+
+(* ====================================================================== the decoder
+   Vocabulary of the translation of internalUnmarshal.  The decoder builds values through
+   reflect.New / Set / SetMapIndex / Append on reflect.Values that alias each other; the translation
+   reads the three idioms it uses functionally:
+   * [pcur]: the pointer reflect.New(T) returns and the settable positions reached from it by Elem()
+     ([pResult] and [target] of the based-type branch are two views of one [pcur]; the key holder
+     [prkv] of the map branch is a fresh one per entry).  [pc_ty] is T, [pc_depth] the number of
+     non-nil pointers created below it so far, [pc_alloc] whether the position the cursor stands on
+     was just given a new pointer, [pc_leaf] what the JSON decoder wrote at the cursor.  A JSON
+     decoder is only given meaning on a position nothing was written to yet (a holder that is used
+     again is outside the vocabulary: E_UNMODELLED).
+   * createValueFromType(T) yields the value built so far below the pointers of T ([cvft], the Go
+     variable dResult: the zero value of the pointer-free type, a map made non-nil) and the pointers
+     around it ([cvft_result] at the return); the updates through dResult ([rv_SetField],
+     [rv_SetMapIndex], [rv_Append], [rv_SetIndex]) go through [assign] of Model/Ser.v (reflect's
+     assignability) and panic where reflect panics.
+   * the entries of MapValues / SliceValues are ranged over in list order (Go ranges over a map in
+     random order: the entries of one record are independent of each other). *)
+Section D.
+  Variables J JK : Type.
+  Variable jdec : base -> J -> res lit.
+  Variable kdec : base -> JK -> res lit.
+  Variable env : senv.
+
+  Definition zero_v (t : ty) : res val := zero (zero_fuel env) env t.   (* reflect.New(t).Elem() *)
+
+  Record pcur : Type := MkPcur { pc_ty : ty; pc_depth : nat; pc_alloc : bool; pc_leaf : option val; pc_ok : bool }.
+  Definition pc_new (T : ty) : pcur := MkPcur T 0 false None true.
+  Fixpoint deref_ty (n : nat) (t : ty) : ty :=
+    match n with
+    | O => t
+    | S n' => match t with TPtr e => deref_ty n' e | _ => t end
+    end.
+  (* x.Type().Elem() of the position the cursor stands on *)
+  Definition pc_cur_ty (c : pcur) : ty := deref_ty (pc_depth c) (pc_ty c).
+  (* x.Elem().Set(reflect.New(x.Type().Elem().Elem())) *)
+  Definition pc_set_new (c : pcur) : pcur :=
+    MkPcur (pc_ty c) (pc_depth c) true (pc_leaf c) (pc_ok c && is_ptr (pc_cur_ty c) && negb (opt_some (pc_leaf c))).
+  (* x = x.Elem() *)
+  Definition pc_down (c : pcur) : pcur :=
+    MkPcur (pc_ty c) (S (pc_depth c)) false (pc_leaf c) (pc_ok c && pc_alloc c).
+  (* sonic.Unmarshal(raw, x.Interface()): null leaves the position as it is; the text of a value of
+     basic kind below k pointers creates them *)
+  Definition raw_is_null (raw : option (jraw J)) : bool :=
+    match raw with Some JNull => true | _ => false end.
+  Definition pc_unmarshal (c : pcur) (raw : option (jraw J)) : res pcur :=
+    if negb (pc_ok c) then Panic
+    else if pc_alloc c || opt_some (pc_leaf c) then Err E_UNMODELLED
+    else match raw with
+         | None => Err E_JSON
+         | Some JNull => Ok c
+         | Some (JText j) =>
+             let kb := strip_ptr (pc_cur_ty c) in
+             match snd kb with
+             | TBase b => do l <- jdec b j; Ok (MkPcur (pc_ty c) (pc_depth c) false (Some (wrap_ptr (fst kb) (VBase b l))) true)
+             | TNamed n b => do l <- jdec b j; Ok (MkPcur (pc_ty c) (pc_depth c) false (Some (wrap_ptr (fst kb) (VNamed n b l))) true)
+             | _ => Err E_UNMODELLED
+             end
+         end.
+  (* sonic.UnmarshalString(key, x.Interface()) into a fresh holder *)
+  Definition pc_unmarshal_key (c : pcur) (k : mkey JK) : res pcur :=
+    if negb (pc_ok c) then Panic
+    else if pc_alloc c || opt_some (pc_leaf c) || negb (Nat.eqb (pc_depth c) 0) then Err E_UNMODELLED
+    else match k with
+         | MKJson kj => do kv <- dec_key JK kdec env (pc_ty c) kj;
+                        Ok (MkPcur (pc_ty c) 0 false (Some kv) true)
+         | MKName _ => Err E_UNMODELLED
+         end.
+  (* the value at the cursor / below the root: x.Elem() read as a value *)
+  Definition pc_here (c : pcur) : res val :=
+    if negb (pc_ok c) then Panic
+    else match pc_leaf c with
+         | Some x => Ok x
+         | None => if pc_alloc c
+                   then do z <- zero_v (rt_Elem1 (pc_cur_ty c)); Ok (VPtr z)
+                   else zero_v (pc_cur_ty c)
+         end.
+  (* pResult.Elem().Interface() *)
+  Definition pc_root_value (c : pcur) : res val :=
+    do x <- pc_here c; Ok (wrap_ptr (pc_depth c) x).
+
+  (* createValueFromType *)
+  Definition make_map (v : val) : val :=
+    match v with
+    | VMap k t None => VMap k t (Some [])
+    | VDef d (VMap k t None) => VDef d (VMap k t (Some []))
+    | _ => v
+    end.
+  Definition cvft (T : ty) : res val := do z <- zero_v (snd (strip_ptr T)); Ok (make_map z).
+  Definition cvft_result (T : ty) (d : val) : val := wrap_ptr (fst (strip_ptr T)) d.
+
+  (* struct fields by name *)
+  Definition mkey_name (k : mkey JK) : option string := match k with MKName s => Some s | MKJson _ => None end.
+  Definition rt_FieldByName (t : ty) (k : mkey JK) : option sfield :=
+    match mkey_name k with
+    | Some s => match alist_get s (rt_fields env t) with Some ft => Some (s, ft) | None => None end
+    | None => None
+    end.
+  (* d.FieldByName(k).CanSet() *)
+  Definition rv_HasField (d : val) (k : mkey JK) : res bool :=
+    match d with
+    | VStruct _ _ => Ok (opt_some (rt_FieldByName (ty_of d) k))
+    | _ => Panic                                   (* FieldByName on a value that is not a struct *)
+    end.
+  Fixpoint fields_set (s : string) (x : val) (fs : list (string * val)) : list (string * val) :=
+    match fs with
+    | [] => []
+    | (g, w) :: r => if String.eqb s g then (g, x) :: r else (g, w) :: fields_set s x r
+    end.
+  (* d.FieldByName(k).Set(x) *)
+  Definition rv_SetField (d : val) (k : mkey JK) (x : val) : res val :=
+    match d, rt_FieldByName (ty_of d) k with
+    | VStruct n fs, Some (s, ft) => do x' <- assign ft x; Ok (VStruct n (fields_set s x' fs))
+    | _, _ => Panic
+    end.
+  (* d.SetMapIndex(k, x) *)
+  Definition rv_SetMapIndex (d k x : val) : res val :=
+    match d with
+    | VMap kt vt (Some kvs) => do x' <- assign vt x; Ok (VMap kt vt (Some (kvs ++ [(k, x')])))
+    | VDef dn (VMap kt vt (Some kvs)) => do x' <- assign vt x; Ok (VDef dn (VMap kt vt (Some (kvs ++ [(k, x')]))))
+    | _ => Panic
+    end.
+  (* reflect.Append(d, x) stored back with d.Set *)
+  Definition rv_Append (d x : val) : res val :=
+    match d with
+    | VSlice et o => do x' <- assign et x; Ok (VSlice et (Some (opt_list o ++ [x'])))
+    | VDef dn (VSlice et o) => do x' <- assign et x; Ok (VDef dn (VSlice et (Some (opt_list o ++ [x']))))
+    | _ => Panic
+    end.
+  (* d.Index(i).Set(x) *)
+  Definition rv_SetIndex (d : val) (i : nat) (x : val) : res val :=
+    match d with
+    | VArray et es => if Nat.ltb i (List.length es) then do x' <- assign et x; Ok (VArray et (slice_set es i x')) else Panic
+    | VDef dn (VArray et es) =>
+        if Nat.ltb i (List.length es) then do x' <- assign et x; Ok (VDef dn (VArray et (slice_set es i x'))) else Panic
+    | _ => Panic
+    end.
+End D.
+Arguments raw_is_null {J} raw.
+Arguments pc_unmarshal {J} jdec c raw.
+Arguments pc_unmarshal_key {JK} kdec env c k.
+Arguments mkey_name {JK} k.
+Arguments rt_FieldByName {JK} env t k.
+Arguments rv_HasField {JK} env d k.
+Arguments rv_SetField {JK} env d k x.
+
+(* for i := 0; i < n && cond; i++ *)
+Fixpoint loop_while_list {R S} (cond : S -> bool) (body : nat -> S -> lres R S) (l : list nat) (s : S) : lres R S :=
+  match l with
+  | [] => LCont s
+  | i :: r => if cond s
+              then match body i s with LRet x => LRet x | LCont s' => loop_while_list cond body r s' end
+              else LCont s
+  end.
+Definition loop_range_while {R S} (cond : S -> bool) (body : nat -> S -> lres R S) (n : nat) (s : S) : lres R S :=
+  loop_while_list cond body (seq 0 n) s.
+(* for i, x := range l *)
+Definition indexed {A} (l : list A) : list (nat * A) := combine (seq 0 (List.length l)) l.
